@@ -162,7 +162,7 @@ static int _decode
 		
 		/* double/leading zero */
 		if (!code) {
-			dec->curr = proc;
+			dec->curr = done + mlen + proc;
 			return MPT_ERROR(BadValue);
 		}
 	}
